@@ -2,6 +2,11 @@ import AasVerif.Lemmas.JsonSchemaGenerate
 import AasVerif.Lemmas.JsonSchemaLeaf
 import AasVerif.Lemmas.JsonSchemaLookup
 import AasVerif.Lemmas.JsonSchemaChoice
+<<<<<<< HEAD
+import AasVerif.Lemmas.JsonSchemaSearchB
+=======
+import AasVerif.Lemmas.JsonSchemaDispatch
+>>>>>>> 3b801aa4d6d8f2c3db6a941074c9d9dbc6e76170
 /-!
 # C11 — JSON Schema is valid and never rejects valid data
 
@@ -11,10 +16,24 @@ concrete class) and `JsonSchema.validates` (the validation semantics of the emit
 The inferred constraints are an INPUT of the model (C15's subject).  Statements that mention
 patterns are statements about the executable matcher `searchB` on UTF-16 units.
 
+<<<<<<< HEAD
 Planned, not proved (see `design.d/C11.md`): `valid_data_accepted` for whole documents through the
 `allOf`/`$ref` inheritance chain and the SDK's `to_jsonable` (needs the definition look-up lemma for
 `generate` and a data model); exactness of `oneOf` (`choice_exclusive` is proved in its
-"at most one alternative" form); `searchB ↔ Retree.MUnion`.
+"at most one alternative" form).  `searchB ↔ Retree.MUnion` is proved: see the last section.
+=======
+Whole documents (section "Whole documents through the `allOf`/`$ref` chain" below): for every concrete
+class of a meta-model whose hierarchy is consistent (`hierOK`, decidable, evaluated by the driver on
+every input) `{"$ref": "#/definitions/<Class>"}` accepts EXACTLY the well-formed documents (`DocOK`:
+object, `modelType`, members of the class and of every ancestor at any distance against the complete
+inferred constraints) — `valid_data_accepted` is the `⇐` half, `Props.C12.document_enforced` the `⇒`
+half; `choice_dispatch` is the same for `_choice` definitions.
+
+Planned, not proved (see `design.d/C11.md`): the link from the SDK's `to_jsonable` to `DocOK` (needs a
+data model; member values that are themselves class instances are delegated to `Valid` of the
+referenced definition, to which `generated_schema_document_iff` / `choice_dispatch` apply again);
+`searchB ↔ Retree.MUnion`.
+>>>>>>> 3b801aa4d6d8f2c3db6a941074c9d9dbc6e76170
 -/
 namespace AasVerif.Props.C11
 open AasVerif AasVerif.JsonSchema AasVerif.Retree
@@ -230,5 +249,224 @@ theorem choice_exact (defs : Defs) (alts : List Text) (hnd : alts.Nodup)
     {X : Text} (hX : X ∈ alts) {kvs : List (Text × Json)} (hmt : lookup modelTypeKey kvs = some (.str X)) :
     Valid defs (.mk [.oneOf (alts.map refTo)]) (.obj kvs) ↔ Valid defs (refTo X) (.obj kvs) :=
   JsonSchema.choice_exact defs alts hnd hdefs hX hmt
+
+<<<<<<< HEAD
+/-! ## The regex matcher is the semantics
+
+`searchB` is what `validates` runs for the `pattern` keyword and what the driver answers on every
+verdict of the correspondence; `Search re u` (`∃ a b c, u = a ++ b ++ c ∧ Retree.MUnion re a b c`) is
+`re.search` in the denotational semantics shared with C16/C17/C18 (anchors read their context). -/
+
+/-- **`searchB` IS the un-anchored search of the denotational semantics**, for every regex tree and
+every text: `yes` iff some substring matches in its context, `no` iff none does, and the fuel it
+supplies (`fuelFor`) is always enough — it never answers `out`. -/
+theorem searchB_is_semantics (re : Regex) (u : Text) :
+    (searchB re u = .yes ↔ Search re u) ∧ (searchB re u = .no ↔ ¬ Search re u) ∧ searchB re u ≠ .out :=
+  ⟨searchB_yes_iff re u, searchB_no_iff re u, searchB_ne_out re u⟩
+
+/-- **The `pattern` keyword never runs out of fuel**: on a string it answers `some true` or
+`some false`, and `some true` exactly when the semantics finds a match in the UTF-16 units. -/
+theorem pattern_keyword_decided (defs : Defs) (r : Schema → Json → Option Bool) (re : Regex) (t : Text) :
+    (validKw defs r (.pattern re) (.str t) = some true ↔ Search re (Fix16.utf16 t)) ∧
+    (validKw defs r (.pattern re) (.str t) = some false ↔ ¬ Search re (Fix16.utf16 t)) := by
+  have h := searchB_is_semantics re (Fix16.utf16 t)
+  simp only [validKw]
+  cases hs : searchB re (Fix16.utf16 t) <;> simp_all [R.toO]
+
+/-- the `pattern` keyword, in the semantics -/
+theorem pattern_keyword_iff (defs : Defs) (re : Regex) (j : Json) :
+    KwValid defs (.pattern re) j ↔ ∀ t, j = .str t → Search re (Fix16.utf16 t) := by
+  rw [kwv_pattern]
+  simp only [searchB_yes_iff]
+
+/-- "every inferred pattern is found", in the semantics -/
+theorem patsOK_iff (pats : Option (List Text)) (t : Text) :
+    PatsOK pats t ↔
+      ∀ ps, pats = some ps → ∀ p ∈ ps, ∃ re, fixPattern p = .ok re ∧ Search re (Fix16.utf16 t) := by
+  simp only [PatsOK, searchB_yes_iff]
+
+/-- **C11b for strings, in the semantics.** The schema emitted for a constrained string accepts the
+JSON string `t` iff the length of `t` is within the inferred bounds and every inferred pattern — parsed
+after the rewriting for UTF-16 engines — has a match somewhere in the UTF-16 units of `t`, in the
+denotational semantics of the regex tree. -/
+theorem string_accepted_iff (defs : Defs) (cs : Cons) (s : Schema) (t : Text)
+    (h : defineType (.prim .str (some cs)) = .ok s) :
+    Valid defs s (.str t) ↔
+      LenIn cs.len id t.length ∧
+      ∀ ps, cs.pats = some ps → ∀ p ∈ ps, ∃ re, fixPattern p = .ok re ∧ Search re (Fix16.utf16 t) := by
+  rw [type_lemma defs _ s h, ← patsOK_iff]
+  constructor
+  · rintro ⟨_, hc⟩
+    exact (hc cs rfl t rfl).1 rfl
+  · intro hc
+    refine ⟨⟨.string, by decide, rfl⟩, ?_⟩
+    intro c hcs t' ht'
+    injection hcs with hcs
+    injection ht' with ht'
+    subst hcs; subst ht'
+    exact ⟨fun _ => hc, fun hb => by cases hb⟩
+
+/-- non-vacuity (and the matcher at work): `^a+$` is found in `aa`, not in `ab`; `b` is found in `ab` -/
+example : Search (.mk [.mk [.mk (.sym .start) none, .mk (.char ⟨97, false⟩) (some ⟨false, 1, none⟩),
+      .mk (.sym .stop) none]]) [97, 97] ∧
+    ¬ Search (.mk [.mk [.mk (.sym .start) none, .mk (.char ⟨97, false⟩) (some ⟨false, 1, none⟩),
+      .mk (.sym .stop) none]]) [97, 98] ∧
+    Search (.mk [.mk [.mk (.char ⟨98, false⟩) none]]) [97, 98] := by
+  refine ⟨?_, ?_, ?_⟩
+  · rw [← searchB_yes_iff]; decide
+  · rw [← searchB_no_iff]; decide
+  · rw [← searchB_yes_iff]; decide
+=======
+/-! ## Whole documents through the `allOf`/`$ref` chain -/
+
+/-- **One level, inheritable definition, exactly**: the definition of an abstract class — or the
+`_abstract` twin of a concrete class with concrete descendants — accepts a JSON value iff every parent
+definition it references accepts it and the class body holds (`InhBodyOK`: as `BodyOK`, but `modelType`
+is demanded — present and a model type — exactly where the class is the top-most carrier). -/
+theorem inheritable_class_iff (defs : Defs) {c : Cls} {k : Text} {s : Schema}
+    (h : inheritableDefinition c = .ok (k, s)) (hnd : (c.props.map (·.name)).Nodup)
+    (hnm : ∀ p ∈ c.props, p.name ≠ modelTypeKey) (j : Json) :
+    Valid defs s j ↔ (∀ i ∈ c.inh, Valid defs (refTo i.refName) j) ∧ InhBodyOK defs c j :=
+  inheritable_iff defs h hnd hnm j
+
+/-- **A concrete class WITH concrete descendants**: its definition is
+`allOf[X_abstract, {properties: {modelType: {const: X}}}]` (the class must carry the model type); it
+accepts iff `X_abstract` accepts and `modelType`, if present, is pinned. -/
+theorem concrete_with_descendants_iff (defs : Defs) {c : Cls} {k : Text} {s : Schema}
+    (h : concreteDefinition c = .ok (k, s)) (hdesc : c.cdesc ≠ []) (j : Json) :
+    k = c.mt ∧ c.withModelType = true ∧
+    (Valid defs s j ↔ Valid defs (refTo (sfx c.mt "_abstract")) j ∧
+      ∀ kvs, j = .obj kvs → ∀ v, lookup modelTypeKey kvs = some v → v = .str c.mt) :=
+  concrete_desc_iff defs h hdesc j
+
+/-- **The tightening steps never reject valid data**: whatever `_define_properties` emits for an
+inherited property (the steps common to all constraining parents) demands no more than the complete
+constraints inferred for the class — for any number of parents. -/
+theorem tightening_never_rejects {full T : Cons} {parents : List (Option Cons)}
+    (h : tightenAll full parents = .ok T) (sh : Shape) (j : Json) (hf : TransSpec sh full j) :
+    TransSpec sh T j :=
+  tightenAll_weaker h sh j hf
+
+/-- **The induction over the ancestor paths** (shared by C11 and C12).  In the definitions `generate mm`
+writes, for a class with concrete descendants in a consistent hierarchy: a JSON value validates against
+the class's inheritable definition iff it is an object whose members meet the complete inferred
+constraints of the class and of EACH of its ancestors (`ancestors`: every path of `inheritances`, any
+length), `modelType` being present and a model type where the top-most carrier demands it. -/
+theorem ancestor_chain_iff (mm : MM) (defs : Defs) (h : generate mm = .ok defs) (hwf : hierOK mm = true)
+    {a : Cls} (ha : OurType.cls a ∈ mm.types) (hdesc : a.cdesc ≠ []) (j : Json) :
+    Valid defs (refTo (inhKey a)) j ↔ ChainOK defs mm.types mm.types.length a j :=
+  chain_iff defs (generate_defsFor mm defs h) _ a ha hdesc ((hierOK_spec hwf).1 a ha (Or.inr hdesc)) j
+
+/-- **Whole documents, exactly.**  For every concrete class `c` of the meta-model — with or without
+parents, with or without concrete descendants — `{"$ref": "#/definitions/<c>"}` in the generated
+definitions accepts a JSON value iff it is a well-formed document of `c` (`DocOK`). -/
+theorem generated_schema_document_iff (mm : MM) (defs : Defs) (h : generate mm = .ok defs)
+    (hwf : hierOK mm = true) {c : Cls} (hc : OurType.cls c ∈ mm.types) (hconc : c.abstract = false)
+    (j : Json) : Valid defs (refTo c.mt) j ↔ DocOK mm defs c j :=
+  document_iff mm defs h hwf hc hconc j
+
+/-- **`valid_data_accepted`.**  A JSON object that carries the class's `modelType` (if the class has
+one), has the own required members of the class and of every ancestor, and whose member values meet
+the annotation where the property is declared and the complete merged constraint of the top node in
+every class that inherits it, validates against the generated schema of its class — whatever the
+length of the `allOf`/`$ref` chain, also for a class with concrete descendants. -/
+theorem valid_data_accepted (mm : MM) (defs : Defs) (h : generate mm = .ok defs) (hwf : hierOK mm = true)
+    {c : Cls} (hc : OurType.cls c ∈ mm.types) (hconc : c.abstract = false) (j : Json)
+    (hok : DocOK mm defs c j) : Valid defs (refTo c.mt) j :=
+  (document_iff mm defs h hwf hc hconc j).mpr hok
+
+/-- **C11c end to end — dispatch through `_choice`, exactly**: where a property is typed with a class
+that has concrete descendants the schema references `<Class>_choice`; that definition accepts a JSON
+value iff it is a well-formed document of one of the alternatives (the class itself unless abstract, or
+a concrete descendant) — in particular a valid document of a descendant is never rejected by the
+`oneOf` (exactly one alternative validates). -/
+theorem choice_dispatch (mm : MM) (defs : Defs) (h : generate mm = .ok defs) (hwf : hierOK mm = true)
+    {c : Cls} (hc : OurType.cls c ∈ mm.types) (hdesc : c.cdesc ≠ [])
+    (hch : choiceOK mm.types c = true) (hhas : hasChoice (classesInProperties mm) c = true) (j : Json) :
+    Valid defs (refTo (sfx c.mt "_choice")) j ↔
+      ∃ d, OurType.cls d ∈ mm.types ∧ d.abstract = false ∧ d.withModelType = true ∧
+        d.mt ∈ choiceAlts c ∧ DocOK mm defs d j :=
+  choice_iff mm defs h hwf hc hdesc hch hhas j
+
+/-! ### Member values that are class instances
+
+`Sat` delegates a class-typed member to the referenced definition; the whole-document theorems apply to it
+again, so nested documents unfold level by level. -/
+
+/-- a member typed with a concrete class without concrete descendants (`{"$ref": "#/definitions/<d>"}`)
+meets its annotation iff it is a well-formed document of that class -/
+theorem class_member_iff (mm : MM) (defs : Defs) (h : generate mm = .ok defs) (hwf : hierOK mm = true)
+    {mt : Text} {d : Cls} (hf : findCls mm.types mt = some d) (hconc : d.abstract = false) (j : Json) :
+    Sat defs (.cls mt false) j ↔ DocOK mm defs d j := by
+  obtain ⟨hd, hmt⟩ := findCls_some hf
+  have := document_iff mm defs h hwf hd hconc j
+  rw [hmt] at this
+  simpa [Sat] using this
+
+/-- a member typed with a class that has concrete descendants (`{"$ref": "#/definitions/<d>_choice"}`)
+meets its annotation iff it is a well-formed document of one of the alternatives -/
+theorem choice_member_iff (mm : MM) (defs : Defs) (h : generate mm = .ok defs) (hwf : hierOK mm = true)
+    {mt : Text} {d : Cls} (hf : findCls mm.types mt = some d) (hdesc : d.cdesc ≠ [])
+    (hch : choiceOK mm.types d = true) (hhas : hasChoice (classesInProperties mm) d = true) (j : Json) :
+    Sat defs (.cls mt true) j ↔
+      ∃ d', OurType.cls d' ∈ mm.types ∧ d'.abstract = false ∧ d'.withModelType = true ∧
+        d'.mt ∈ choiceAlts d ∧ DocOK mm defs d' j := by
+  obtain ⟨hd, hmt⟩ := findCls_some hf
+  have := choice_iff mm defs h hwf hd hdesc hch hhas j
+  rw [hmt] at this
+  simpa [Sat] using this
+
+/-! ### Non-vacuity: a chain of three classes -/
+
+/-- `sampleMM` with the `parents` entries the wire form records for inherited properties -/
+def rootK : Cls := ⟨ascii "Root", true, true, [],
+  [⟨ascii "kind", true, true, .enum (ascii "Kind"), []⟩,
+   ⟨ascii "name", false, true, .prim .str (some ⟨some ⟨none, some 5⟩, none⟩), []⟩], [ascii "Mid", ascii "Leaf"]⟩
+def midK : Cls := ⟨ascii "Mid", false, true, [⟨ascii "Root", false, true⟩],
+  [⟨ascii "kind", true, false, .enum (ascii "Kind"), [none]⟩,
+   ⟨ascii "name", false, false, .prim .str (some ⟨some ⟨some 1, some 5⟩, none⟩), [some ⟨some ⟨none, some 5⟩, none⟩]⟩],
+  [ascii "Leaf"]⟩
+def leafK : Cls := ⟨ascii "Leaf", false, true, [⟨ascii "Mid", true, true⟩],
+  [⟨ascii "kind", true, false, .enum (ascii "Kind"), [none]⟩,
+   ⟨ascii "name", false, false, .prim .str (some ⟨some ⟨some 2, some 5⟩, none⟩), [some ⟨some ⟨some 1, some 5⟩, none⟩]⟩,
+   ⟨ascii "blob", true, true, .prim .bytes (some ⟨some ⟨none, some 4⟩, none⟩), []⟩], []⟩
+def holderK : Cls := ⟨ascii "Holder", false, false, [],
+  [⟨ascii "roots", false, true, .list (.cls (ascii "Root") true) (some ⟨some ⟨some 1, none⟩, none⟩), []⟩], []⟩
+def chainMM : MM := ⟨[.enum (ascii "Kind") [ascii "b", ascii "a"], .cls rootK, .cls midK, .cls leafK, .cls holderK]⟩
+def chainDefs : Defs := match generate chainMM with | .ok d => d | _ => []
+
+/-- the hypotheses of the whole-document theorems hold for the three-level chain … -/
+example : hierOK chainMM = true ∧ choicesOK chainMM = true ∧ refsClosed chainMM = true ∧
+    generate chainMM = .ok chainDefs ∧
+    hasChoice (classesInProperties chainMM) rootK = true ∧ choiceOK chainMM.types rootK = true := by
+  refine ⟨by decide, by decide, by decide, ?_, by decide, by decide⟩
+  have hok : (match generate chainMM with | .ok _ => true | _ => false) = true := by decide
+  unfold chainDefs
+  cases h : generate chainMM with
+  | ok d => rfl
+  | err => rw [h] at hok; cases hok
+  | crash c => rw [h] at hok; cases hok
+
+/-- … `Holder.roots` names a class that `findCls` resolves (hypothesis of `choice_member_iff`) … -/
+example : (findCls chainMM.types (ascii "Root")).map (·.mt) = some (ascii "Root") ∧
+    (findCls chainMM.types (ascii "Leaf")).map (·.abstract) = some false := by decide
+
+/-- … whose leaf has the ancestors `Mid` (concrete, with descendants: `Mid_abstract`) and `Root` (two
+steps up) … -/
+example : (ancestorsOf chainMM leafK).map (·.mt) = [ascii "Mid", ascii "Root"] ∧
+    (ancestorsOf chainMM midK).map (·.mt) = [ascii "Root"] := by decide
+
+/-- … and documents of `Leaf`, of `Mid` (a class with concrete descendants) and a `Holder` with a list
+dispatched through `Root_choice` validate as the theorems say. -/
+example :
+    validates chainDefs 20 (refTo (ascii "Leaf")) (.obj [(ascii "name", .str (ascii "abc")),
+      (modelTypeKey, .str (ascii "Leaf"))]) = some true ∧
+    validates chainDefs 20 (refTo (ascii "Mid")) (.obj [(ascii "name", .str (ascii "a")),
+      (modelTypeKey, .str (ascii "Mid"))]) = some true ∧
+    validates chainDefs 20 (refTo (ascii "Holder")) (.obj [(ascii "roots", .arr [
+      .obj [(ascii "name", .str (ascii "abc")), (modelTypeKey, .str (ascii "Leaf"))],
+      .obj [(ascii "name", .str (ascii "a")), (modelTypeKey, .str (ascii "Mid"))]])]) = some true := by
+  refine ⟨by decide, by decide, by decide⟩
+>>>>>>> 3b801aa4d6d8f2c3db6a941074c9d9dbc6e76170
 
 end AasVerif.Props.C11
